@@ -66,21 +66,21 @@ Proof.
   intros [[[[H1 H2] H3] H4] H5]. apply str_eqb_eq in H1, H2, H3. apply Z.eqb_eq in H4, H5. congruence.
 Qed.
 
-Lemma body_is_session_redeem e s : e_now e = 0%Z -> body_is_session s (redeem_body e s) = true.
+Lemma body_is_session_redeem e s : body_is_session (e_now e) s (redeem_body e s) = true.
 Proof.
-  intros Hn. unfold body_is_session, redeem_body, opt_str_eqb, expires_close. simpl.
-  rewrite !str_eqb_refl, Hn. simpl. lia.
+  unfold body_is_session, redeem_body, opt_str_eqb, expires_close. simpl.
+  rewrite !str_eqb_refl. simpl. lia.
 Qed.
 
-Theorem monitor_accepts_model : forall cfg pre r tab ref grp valid ids secrets kind csess leak,
-  let e := mk_env tab ref grp valid in
+Theorem monitor_accepts_model : forall now cfg pre r tab ref grp valid ids secrets kind csess leak,
+  let e := mk_env now tab ref grp valid in
   let m := serve cfg e pre r in
   cfg_valid cfg = true ->
   sane cfg r e ids secrets kind csess = true ->
   (leak = true -> has_field (rs_body (serve cfg e pre r)) = true) ->
-  holds_req cfg r ids secrets kind csess (rs_status (serve cfg e pre r)) (rs_calls m) (rs_body (serve cfg e pre r)) leak false = true.
+  holds_req now cfg r ids secrets kind csess (rs_status (serve cfg e pre r)) (rs_calls m) (rs_body (serve cfg e pre r)) leak false = true.
 Proof.
-  intros cfg pre r tab ref grp valid ids secrets kind csess leak e m Hv Hsane Hleak. subst m.
+  intros now cfg pre r tab ref grp valid ids secrets kind csess leak e m Hv Hsane Hleak. subst m.
   unfold sane in Hsane. apply andb_true_iff in Hsane as [Hsane Hcode].
   apply andb_true_iff in Hsane as [Hi Hs].
   assert (HC : (is_2xx (rs_status (serve cfg e pre r)) || (negb (has_field (rs_body (serve cfg e pre r))) && negb leak))%bool = true).
@@ -106,24 +106,24 @@ Proof.
       { destruct leak; [|reflexivity]. specialize (Hleak eq_refl). rewrite Hb in Hleak. discriminate Hleak. }
       destruct Hst as [-> | [-> | ->]]; reflexivity.
     + unfold unseal in Hcode. rewrite Ho, N.eqb_refl in Hcode.
-      assert (Ex : ((s_refresh_dl s <? 0) || (s_lifetime_dl s <? 0))%Z = false) by (unfold e in F1, F2; simpl in F1, F2; lia).
+      assert (Ex : ((s_refresh_dl s <? now) || (s_lifetime_dl s <? now))%Z = false) by (unfold e in F1, F2; simpl in F1, F2; lia).
       rewrite Ex in Hcode. simpl in Hcode. apply andb_true_iff in Hcode as [Hk Hcs].
       rewrite Hr. simpl. rewrite Hk. simpl.
       destruct csess as [s0|]; [|discriminate Hcs]. simpl in Hcs. apply session_eqb_eq in Hcs. subst s0.
-      apply body_is_session_redeem. reflexivity.
+      exact (body_is_session_redeem e s).
     + rewrite Hr. simpl.
       destruct leak; [|reflexivity]. specialize (Hleak eq_refl). rewrite Hr in Hleak. discriminate Hleak.
 Qed.
 
 (* so a case whose observation equals the model's prediction is never judged a violation *)
-Corollary judge_model_is_fine : forall mode cfg pre r tab ref grp valid ids secrets kind csess,
-  let e := mk_env tab ref grp valid in
+Corollary judge_model_is_fine : forall mode now cfg pre r tab ref grp valid ids secrets kind csess,
+  let e := mk_env now tab ref grp valid in
   let m := serve cfg e pre r in
   sane cfg r e ids secrets kind csess = true ->
-  judge (CReq mode cfg (cfg_valid cfg) pre r tab ref grp valid ids secrets kind csess
+  judge (CReq mode now cfg (cfg_valid cfg) pre r tab ref grp valid ids secrets kind csess
               (rs_status m) (rs_calls m) (rs_body m) (has_field (rs_body m)) false) = 0.
 Proof.
-  intros mode cfg pre r tab ref grp valid ids secrets kind csess e m Hsane.
+  intros mode now cfg pre r tab ref grp valid ids secrets kind csess e m Hsane.
   unfold judge. fold e. fold m. rewrite Hsane.
   assert (Hb : body_close (if str_eqb (rq_path r) p_redeem then 10%Z else 0%Z) (rs_body m) (rs_body m) = true).
   { unfold body_close, opt_str_eqb, option_eqb, expires_close.
@@ -142,7 +142,7 @@ Proof.
   rewrite Hc. assert (bool_eqb (cfg_valid cfg) (cfg_valid cfg) = true) as -> by (destruct (cfg_valid cfg); reflexivity).
   simpl. destruct (cfg_valid cfg) eqn:Ev; [|reflexivity]. simpl.
   subst m e.
-  rewrite (monitor_accepts_model cfg pre r tab ref grp valid ids secrets kind csess _ Ev Hsane (fun H => H)).
+  rewrite (monitor_accepts_model now cfg pre r tab ref grp valid ids secrets kind csess _ Ev Hsane (fun H => H)).
   reflexivity.
 Qed.
 
